@@ -56,6 +56,41 @@ type evFields struct {
 	Auth     []string
 	Depth    int64
 	Redacts  string
+	NoOrigin bool // hand-signed only: leave the (optional) origin key out
+}
+
+// refList spells a list of event IDs in the event format of the version (reference tuples / plain IDs).
+func refList(ver string, ids []string) interface{} {
+	if !specFormatV1(ver) {
+		if ids == nil {
+			return []string{}
+		}
+		return ids
+	}
+	out := make([]interface{}, 0, len(ids))
+	for _, id := range ids {
+		out = append(out, []interface{}{id, map[string]string{"sha256": ""}})
+	}
+	return out
+}
+
+// withKey returns the canonical JSON of the event with one top-level key replaced.
+func withKey(eventJSON []byte, key string, value interface{}) []byte {
+	var m map[string]json.RawMessage
+	if err := json.Unmarshal(eventJSON, &m); err != nil {
+		fatalf("withKey: %v", err)
+	}
+	v, err := json.Marshal(value)
+	if err != nil {
+		fatalf("withKey: %v", err)
+	}
+	m[key] = v
+	b, _ := json.Marshal(m)
+	c, err := gmsl.CanonicalJSON(b)
+	if err != nil {
+		fatalf("withKey: canonical JSON: %v", err)
+	}
+	return c
 }
 
 func strp(s string) *string { return &s }
@@ -118,8 +153,11 @@ func contentHash(eventJSON []byte) string {
 func handSigned(ver string, v gmsl.IRoomVersion, f evFields) []byte {
 	m := map[string]interface{}{
 		"type": f.Type, "sender": f.Sender, "content": json.RawMessage(contentJSON(f.Content)),
-		"depth": 1, "origin": string(origin), "origin_server_ts": evNow.UnixMilli(),
-		"prev_events": []string{}, "auth_events": []string{},
+		"depth": 1, "origin_server_ts": evNow.UnixMilli(),
+		"prev_events": refList(ver, f.Prev), "auth_events": refList(ver, f.Auth),
+	}
+	if !f.NoOrigin {
+		m["origin"] = string(origin)
 	}
 	if f.RoomID != "" {
 		m["room_id"] = f.RoomID
